@@ -21,6 +21,16 @@ CHECKS = {
         "Denotation clause only for grammar-clean headers; lenient extraction from other text is judged by the structural clause "
         "and the exception class. Either rejection accepted when a header is both malformed and unsatisfiable.",
     ),
+    "C08": (
+        "exploration",
+        "exhaustive enumeration of a small text domain per convertor type + Hypothesis route tables/paths against a reference matcher with explicit per-type languages",
+        "Every string of length <= 3 (quick) / 4 (thorough) over a 10-symbol hostile alphabet is matched against every placeholder type in 3 "
+        "templates and compared with explicit language definitions, converted values and the to_string round-trip; Hypothesis generates "
+        "route tables (regex metacharacters, Unicode, overlapping and adjacent placeholders) and near-miss paths and dispatches them "
+        "through the real WSGI and ASGI routers, comparing the endpoint that ran and its typed path_params with the reference.",
+        "Decomposition choice for adjacent placeholders left open; >4000-digit integers may be 404/next route or exact; route authors do not "
+        "repeat placeholder names or put braces in literals.",
+    ),
     "C11": (
         "exploration",
         "exhaustive enumeration of call histories x server scripts against a reference automaton, plus Hypothesis-generated longer histories",
